@@ -240,6 +240,12 @@ func (m *Machine) Do(s Step) (out Outcome) {
 	case "setbitsexp-own":
 		mant, _ := z.BitsExp()
 		z.SetBitsExp(mant, s.Exp)
+	case "setbitsexp-edit":
+		mant, _ := z.BitsExp()
+		if len(mant) > 0 && len(s.W) > 0 {
+			mant[len(mant)-1] = decimal.Word(s.W[0])
+		}
+		z.SetBitsExp(mant, s.Exp)
 	default:
 		panic(h.BuildError{Msg: "sm: unknown op " + s.Op})
 	}
